@@ -88,6 +88,8 @@ Proof.
   all: try (unfold clear_list_tr, reorder_tr; simpl; repeat destr_match; rewrite ?ntf_off by assumption; auto with c09).
   all: try (rewrite OFF; apply rebind_core_tr_silent).
   all: try congruence.
+  all: try (destruct (new_list_from q st its) as [c st1]; apply extend_core_silent; assumption).
+  all: try (destruct (new_list_from q st []) as [c st1]; apply extend_tr_silent; assumption).
 Qed.
 
 Theorem silent_scope : forall q st o, notify_on (o_scope o) = false -> events_of (step_trace q st o) = [].
